@@ -258,6 +258,27 @@ class WeightInterp:
                 lo, hi = self.idx(it.args[0]), self.idx(it.args[1])
                 step = self.idx(it.args[2]) if len(it.args) == 3 else C(1)
                 sym = "i"
+                # a unit-step loop whose body branches on the parity of the index is two stride-2 loops (accumulating stores commute)
+                par = [b for b in s.body if isinstance(b, ast.If) and self._parity_test(b.test, s.target.id) is not None]
+                if par and step.eq(C(1)) and Fragc(lo) is not None and Fragc(lo).denominator == 1:
+                    if len(par) != 1:
+                        raise Uninterpretable("several parity tests in one loop %s" % norm_stmt(s))
+                    if any(isinstance(n, ast.Assign) and isinstance(n.targets[0], ast.Subscript) and isinstance(n.targets[0].value, ast.Name)
+                           and n.targets[0].value.id == self.mat for n in ast.walk(s)):
+                        raise Uninterpretable("plain store inside a parity-split loop %s" % norm_stmt(s))
+                    pi = s.body.index(par[0])
+                    when_even = self._parity_test(par[0].test, s.target.id)          # True: the test holds for even indices
+                    l0 = int(Fragc(lo))
+                    for parity in (0, 1):
+                        arm = par[0].body if (parity == 0) == when_even else par[0].orelse
+                        start = l0 if l0 % 2 == parity else l0 + 1
+                        saved = dict(self.env)
+                        self.env[s.target.id] = S(sym)
+                        self.loop = (sym, C(start), hi, C(2))
+                        self.run(list(s.body[:pi]) + list(arm) + list(s.body[pi + 1:]))
+                        self.loop = None
+                        self.env = saved
+                    continue
                 saved = dict(self.env)
                 self.env[s.target.id] = S(sym)
                 self.loop = (sym, lo, hi, step)
@@ -266,6 +287,23 @@ class WeightInterp:
                 self.env = saved
                 continue
             raise Uninterpretable("statement %s" % norm_stmt(s))
+
+    @staticmethod
+    def _parity_test(t, var) -> Optional[bool]:
+        """`var % 2 == 0` / `var % 2 != 1` -> True (holds for even), `var % 2 == 1` / `!= 0` / bare `var % 2` -> False; None otherwise"""
+        def is_mod(e):
+            return isinstance(e, ast.BinOp) and isinstance(e.op, ast.Mod) and isinstance(e.left, ast.Name) and e.left.id == var \
+                and isinstance(e.right, ast.Constant) and e.right.value == 2
+        if is_mod(t):
+            return False
+        if isinstance(t, ast.UnaryOp) and isinstance(t.op, ast.Not) and is_mod(t.operand):
+            return True
+        if isinstance(t, ast.Compare) and len(t.ops) == 1 and is_mod(t.left) and isinstance(t.comparators[0], ast.Constant) and t.comparators[0].value in (0, 1):
+            eq = isinstance(t.ops[0], ast.Eq)
+            if not isinstance(t.ops[0], (ast.Eq, ast.NotEq)):
+                return None
+            return (t.comparators[0].value == 0) == eq
+        return None
 
     def to_h(self, v: Rat, j: Rat) -> Rat:
         """express X[j+1] - X[j] through h[j] (only the pattern X[k+1] - X[k] is rewritten)"""
